@@ -30,7 +30,16 @@ expression (postfix) over the simple operands / the requested mapping and predic
 the same Python as engine Alg's `opNew`, value-free), then all strings, `GetComposingUnits/Categories`,
 `repr/str(Quantity)`, `GetUnitCaption`, the value object's `GetUnitName/GetFormatted`.  Theorems:
 `product_strings_from_operands`, `product_factor_order`, `matching_idempotent`, `quantity_pow_eq_iterated_mul`,
-`pow_unit_string`, `pow_unit_string_parses`, `scalar_pow_eq_quantity_pow`."""
+`pow_unit_string`, `pow_unit_string_parses`, `scalar_pow_eq_quantity_pow`.
+
+Caller histories (`_caller_history`, model `Barril/Model/StrCaller.lean`): the caller KEEPS the mapping (dict with list
+cells, for `ObtainQuantity` and `CreateDerived`) or the lists (list form with list pairs) it passed and edits them in
+place afterwards - exponent cell, unit cell, added / replaced / removed key - passes the same objects again (`again`),
+does arithmetic on the quantities made earlier (`arith`: q * x, q / x, q ** n on the Quantity or on a Scalar built on
+it).  After every edit (and at `reread` steps) ALL strings of EVERY quantity made so far in the history are asked
+again and compared exactly with the model's values, which are those of the ORIGINAL requests (the model's quantities
+are immutable values; theorems `strings_stable_under_caller_mutation`, `request_answered_from_original`,
+`edited_request_answered_as_edited`, `arithmetic_after_caller_mutation`)."""
 import re
 from collections import OrderedDict
 
@@ -55,13 +64,20 @@ RULE = ("derived quantities built on the real code: (a) profiles - 0..4 numerato
         "Quantity.CreateDerived, as ObtainQuantity(mapping[, caption]) or in the list form, random trees followed by "
         "the same tree with products commuted, and powers x ** n for n in -2..9 of simple and derived bases "
         "(Quantity ** n, Scalar ** n, n-fold product of Arrays): the model predicts every step from the operands / "
-        "the request.  distinct = distinct model line; non-trivial = a derived quantity "
+        "the request; (h) caller histories of 3..9 steps: requests whose mapping / lists the caller keeps (dict with "
+        "list cells, CreateDerived, list form with list pairs; 2..4 factors, now and then two categories of one "
+        "quantity type), in-place edits of a kept request (exponent cell, unit cell among the valid units of the "
+        "category, added / replaced / removed key), the same objects passed again, arithmetic on earlier quantities, "
+        "other expressions; after every edit and at re-read steps all strings of every quantity made so far are read "
+        "again and compared with the model's values of the original requests.  distinct = distinct model line; non-trivial = a derived quantity "
         "with >= 2 entries, or a parse of a string containing '.' or '/'")
 EXHAUSTIVE = {"quick": False, "thorough": False}
 ASSUMPTIONS = ["history cases: the model computes the entry list of a product / quotient / power from the simple operands "
                "(value-free copy of engine Alg's opNew on byte strings; the numbers, and which conversions fail, stay "
                "C03/C04's business: a step whose value computation fails is skipped); the quantities cache is not "
                "modelled (a memo keyed by the ordered request must be transparent: that is what the histories test)",
+               "caller histories: edits keep the request valid (units of the category's quantity type, non-zero exponents, "
+               "at least one factor): which requests are refused is not the subject here",
                "other cases: the model receives the quantity's internal entry list and the registry lookups (category -> quantity "
                "type, (type, unit) -> name) as data read from the real objects; how arithmetic produces the entry "
                "list is engine Alg's business (C03/C04), how lookups resolve is engine Conv's (C01/C02)",
@@ -508,6 +524,114 @@ def _pow_history(ctx, rng):
     return dict(kind="history", mode=mode, steps=steps)
 
 
+NONZERO = [-3, -2, -1, -1, 1, 1, 2, 3]
+
+
+def _caller_history(ctx, rng):
+    """the caller KEEPS the mapping / the lists it passed and edits or re-uses them: requests (dict form with list cells,
+    CreateDerived, list form with list pairs), edits of a kept request (exponent cell, unit cell, added / removed key),
+    the same request object once more, other creations in between; after every edit (and at `reread` steps) ALL
+    strings of every quantity made so far are asked again"""
+    qt_of = ctx.db.GetCategoryQuantityType
+    steps, sims = [], OrderedDict()   # sid -> dict(kind=, ents=[[c, u, e]]): the request as the caller holds it now
+
+    def fresh_leaf(taken, qt=None):
+        for _ in range(20):
+            leaf = _leaf(ctx, rng, qt if qt in ctx.pool else None)
+            qt = None     # (a quantity type with no further category: any other one)
+            # '<unknown>' is left to the other generators: with an unknown-unit caption GetUnitCaption of the simple
+            # quantity is 'caption <unknown>', which is not a string of this model
+            if leaf[2] not in taken and leaf[1] != "<unknown>":
+                return leaf
+        return None
+
+    def request():
+        ents = []
+        n = rng.choice([2, 2, 2, 3, 3, 4])
+        while len(ents) < n:
+            leaf = fresh_leaf([c for c, _u, _e in ents], qt_of(ents[0][0]) if ents and rng.random() < 0.25 else None)
+            if leaf is None:
+                break
+            ents.append([leaf[2], leaf[1], rng.choice(NONZERO)])
+        kind = rng.choice(["dict", "dict", "dict", "derived", "list"])
+        sid = "r%d" % len(sims)
+        sims[sid] = dict(kind=kind, ents=[list(x) for x in ents])
+        if kind == "list":
+            st = dict(k="list", pairs=[[u, e] for _c, u, e in ents], lcats=[c for c, _u, _e in ents], as_tuple=False, sid=sid)
+        else:
+            st = dict(k=kind, entries=[list(x) for x in ents], sid=sid)
+            if rng.random() < 0.2:
+                st["cap"] = rng.choice(["my unit", "X"])
+        steps.append(st)
+
+    def edit():
+        sid = rng.choice(list(sims))
+        sim = sims[sid]
+        ents = sim["ents"]
+        w = rng.random()
+        if w < 0.45:
+            i = rng.randrange(len(ents))
+            x = rng.choice([e for e in NONZERO if e != ents[i][2]])
+            if len(ents) == 1 and x == 1 and sim["kind"] == "derived":
+                return
+            ents[i][2] = x
+            ed = ["exp", i, x]
+        elif w < 0.65:
+            i = rng.randrange(len(ents))
+            us = sorted(set(u for c, u in ctx.pool[qt_of(ents[i][0])] if u != ents[i][1] and u != "<unknown>"))
+            if not us:
+                return
+            ents[i][1] = rng.choice(us)
+            ed = ["unit", i, ents[i][1], ents[i][0]]
+        elif w < 0.85:
+            if sim["kind"] != "list" and rng.random() < 0.3:
+                # an existing key gets a NEW cell (the key keeps its place)
+                i = rng.randrange(len(ents))
+                ents[i] = [ents[i][0], ents[i][1], rng.choice(NONZERO)]
+                if len(ents) == 1 and ents[i][2] == 1 and sim["kind"] == "derived":
+                    ents[i][2] = 2
+                ed = ["add"] + list(ents[i])
+            else:
+                leaf = fresh_leaf([c for c, _u, _e in ents])
+                if leaf is None:
+                    return
+                ents.append([leaf[2], leaf[1], rng.choice(NONZERO)])
+                ed = ["add"] + list(ents[-1])
+        else:
+            if len(ents) < 2 or (sim["kind"] == "derived" and len(ents) < 3):
+                return
+            i = rng.randrange(len(ents))
+            del ents[i]
+            ed = ["del", i]
+        steps.append(dict(k="edit", of=sid, ed=ed))
+
+    request()
+    for _ in range(rng.randint(2, 6)):
+        w = rng.random()
+        if w < 0.45:
+            edit()
+        elif w < 0.72:
+            steps.append(dict(k="again", of=rng.choice(list(sims))))
+        elif w < 0.8:
+            request()
+        elif w < 0.9:
+            # arithmetic on a quantity made earlier (on the quantity in mode q, on a Scalar built on it otherwise)
+            sid = rng.choice(list(sims))
+            if rng.random() < 0.6:
+                leaf = _leaf(ctx, rng)
+                steps.append(dict(k="arith", of=sid, f=rng.choice(["mul", "div"]), leaf=leaf))
+            else:
+                steps.append(dict(k="arith", of=sid, f="pow", n=rng.choice([2, 2, 3])))
+        elif w < 0.95:
+            a, b = _leaf(ctx, rng), _leaf(ctx, rng)
+            steps.append(dict(k="expr", recipe=[rng.choice(["mul", "div"]), a, b] if a[2] != b[2] else ["pow", a, 2]))
+        else:
+            steps.append(dict(k="reread"))
+    if steps[-1]["k"] != "edit":
+        steps.append(dict(k="reread"))
+    return dict(kind="history", mode=rng.choice(["s", "q", "q", "a0"]), steps=steps)
+
+
 def _leaves(r, out):
     if r[0] == "leaf":
         out.append((r[2], r[1]))
@@ -542,6 +666,9 @@ def _rpn(r, mode, out):
 def _history_case(ctx, t):
     ent = []
     msteps = []
+    kept = []
+    caps, made_at, nmade = {}, {}, 0
+    slots, nreq = {}, 0      # every dict / derived / list step is a request the model's caller holds, in this order
     for st in t["steps"]:
         if st["k"] == "expr":
             for c, u in _leaves(st["recipe"], []):
@@ -552,10 +679,51 @@ def _history_case(ctx, t):
             msteps.append(dict(k="dict", entries=[[str(sym(c)), str(sym(u)), e] for c, u, e in st["entries"]]))
             if "cap" in st:
                 msteps[-1]["cap"] = str(sym(st["cap"]))
-        else:
+        elif st["k"] == "list":
             ent += [[c, u, e] for c, (u, e) in zip(st["lcats"], st["pairs"])]
             msteps.append(dict(k="list", pairs=[[str(sym(u)), e] for u, e in st["pairs"]],
                                lcats=[str(sym(c)) for c in st["lcats"]]))
+        elif st["k"] == "reread":
+            msteps.append(dict(k="reread"))
+        elif st["k"] in ("again", "edit", "arith"):
+            if st["of"] not in slots:
+                continue      # (shrinking removed the request this step is about)
+            if st["k"] == "arith":
+                m = dict(k="arith", on=made_at[st["of"]])
+                if st["f"] == "pow":
+                    m.update(f="qpow" if t["mode"] == "q" else "spow", n=st["n"])
+                else:
+                    ent.append([st["leaf"][2], st["leaf"][1], 1])
+                    m.update(f=st["f"], c=str(sym(st["leaf"][2])), u=str(sym(st["leaf"][1])))
+                msteps.append(m)
+            elif st["k"] == "again":
+                msteps.append(dict(k="again", slot=slots[st["of"]]))
+                if caps.get(st["of"]) is not None:
+                    msteps[-1]["cap"] = str(sym(caps[st["of"]]))   # the same caption is passed again
+            else:
+                ed = st["ed"]
+                if ed[0] == "unit":
+                    ent.append([ed[3], ed[2], 1])
+                    med = ["unit", ed[1], str(sym(ed[2]))]
+                elif ed[0] == "add":
+                    ent.append([ed[1], ed[2], ed[3]])
+                    med = ["add", str(sym(ed[1])), str(sym(ed[2])), ed[3]]
+                else:
+                    med = list(ed)
+                msteps.append(dict(k="edit", slot=slots[st["of"]], ed=med))
+        else:
+            raise ValueError(st["k"])
+        if st["k"] in ("derived", "dict", "list"):
+            if "sid" in st:
+                slots[st["sid"]] = nreq
+                caps[st["sid"]] = st.get("cap")
+                made_at[st["sid"]] = nmade
+            nreq += 1
+        if st["k"] not in ("edit", "reread"):
+            nmade += 1
+        kept.append(st)
+    if len(kept) != len(t["steps"]):
+        t = dict(t, steps=kept)
     # matching can put the unit of one factor on another factor of the same quantity type: every (type, unit) pair
     cats, _n = lookups(ctx.db, ent)
     qt_of = dict((c, qt) for c, qt in cats)
@@ -572,37 +740,127 @@ def _history_case(ctx, t):
                 _t=t)
 
 
-def _run_step(st, mode):
-    """one step on the real code: (quantity, value object or None)"""
+def _obtain(kind, obj, cap):
     from barril.units import ObtainQuantity, Quantity
 
+    if kind == "derived":
+        return Quantity.CreateDerived(obj, cap) if cap is not None else Quantity.CreateDerived(obj)
+    if kind == "dict":
+        return ObtainQuantity(obj, None, cap) if cap is not None else ObtainQuantity(obj)
+    return ObtainQuantity(obj[0], obj[1])
+
+
+def _run_step(st, mode, held=None):
+    """one creation step on the real code: (quantity, value object or None).  `held` (sid -> (kind, the very objects
+    that were passed, caption)) is the caller's side: a step with a `sid` leaves its mapping / lists there, `again`
+    passes the same objects once more"""
     if st["k"] == "expr":
         x = build(st["recipe"], mode)
         return (x, None) if mode == "q" else (x.GetQuantity(), x)
-    if st["k"] == "derived":
-        d = OrderedDict((c, [u, e]) for c, u, e in st["entries"])
-        return (Quantity.CreateDerived(d, st["cap"]) if "cap" in st else Quantity.CreateDerived(d)), None
-    if st["k"] == "dict":
-        d = OrderedDict((c, [u, e]) for c, u, e in st["entries"])
-        return (ObtainQuantity(d, None, st["cap"]) if "cap" in st else ObtainQuantity(d)), None
-    cont = tuple if st.get("as_tuple") else list
-    return ObtainQuantity(cont((u, e) for u, e in st["pairs"]), cont(st["lcats"])), None
+    if st["k"] == "again":
+        kind, obj, cap = held[st["of"]]
+        return _obtain(kind, obj, cap), None
+    if st["k"] == "arith":
+        from barril.units import ObtainQuantity, Scalar
+
+        q0 = held[("made", st["of"])]
+        if isinstance(q0, Exception):
+            raise q0
+        if mode == "q":
+            if st["f"] == "pow":
+                return q0 ** st["n"], None
+            other = ObtainQuantity(st["leaf"][1], st["leaf"][2])
+            return (q0 * other if st["f"] == "mul" else q0 / other), None
+        x = Scalar.CreateWithQuantity(q0, 1.5)
+        if st["f"] == "pow":
+            x = x ** st["n"]
+        else:
+            other = Scalar(st["leaf"][3], st["leaf"][1], st["leaf"][2])
+            x = x * other if st["f"] == "mul" else x / other
+        return x.GetQuantity(), x
+    cap = st.get("cap")
+    if st["k"] in ("derived", "dict"):
+        obj = OrderedDict((c, [u, e]) for c, u, e in st["entries"])
+    elif st.get("as_tuple"):
+        obj = (tuple((u, e) for u, e in st["pairs"]), tuple(st["lcats"]))
+    else:
+        # list cells when the caller keeps them (they can be edited in place), tuples otherwise
+        cell = list if "sid" in st else tuple
+        obj = ([cell((u, e)) for u, e in st["pairs"]], list(st["lcats"]))
+    if held is None or "sid" not in st:
+        return _obtain(st["k"], obj, cap), None
+    held[st["sid"]] = (st["k"], obj, cap)
+    try:
+        q = held[("made", st["sid"])] = _obtain(st["k"], obj, cap)
+    except Exception as e:
+        held[("made", st["sid"])] = e
+        raise
+    return q, None
+
+
+def _apply_edit(held, st):
+    """the caller edits, in place, what it passed earlier"""
+    kind, obj, _cap = held[st["of"]]
+    ed = st["ed"]
+    if kind == "list":
+        pairs, lcats = obj
+        if ed[0] == "exp":
+            pairs[ed[1]][1] = ed[2]
+        elif ed[0] == "unit":
+            pairs[ed[1]][0] = ed[2]
+        elif ed[0] == "add":
+            pairs.append([ed[2], ed[3]])
+            lcats.append(ed[1])
+        else:
+            del pairs[ed[1]]
+            del lcats[ed[1]]
+    else:
+        keys = list(obj)
+        if ed[0] == "exp":
+            obj[keys[ed[1]]][1] = ed[2]
+        elif ed[0] == "unit":
+            obj[keys[ed[1]]][0] = ed[2]
+        elif ed[0] == "add":
+            obj[ed[1]] = [ed[2], ed[3]]
+        else:
+            del obj[keys[ed[1]]]
+
+
+def _held_entries(held, sid):
+    """the request the caller holds, as it is now: [(category, unit, exp)]"""
+    kind, obj, _cap = held[sid]
+    if kind == "list":
+        return [(c, p[0], p[1]) for c, p in zip(obj[1], obj[0])]
+    return [(c, cell[0], cell[1]) for c, cell in obj.items()]
 
 
 def _plain(x):
     return all(32 <= ord(ch) < 127 and ch not in "'\\" for ch in x)
 
 
-def _describe_step(st, mode):
+def _describe_step(st, mode, held=None, made=None):
+    try:
+        q, v = _run_step(st, mode, held)
+    except (ZeroDivisionError, OverflowError):
+        out = dict(skip=True)   # a failed value computation (C03/C04/C10's business): no strings to compare
+        if made is not None:
+            made.append(out)
+        return out
+    except Exception as e:
+        out = dict(err=err_kind(e), detail=repr(e)[:200])
+        if made is not None:
+            made.append(out)
+        return out
+    if made is not None:
+        made.append((q, v))
+    return _describe(q, v)
+
+
+def _describe(q, v):
+    """ALL strings of a quantity and of the value objects on it"""
     from barril.basic.format_float import FormatFloat
     from barril.units import Array, Scalar
 
-    try:
-        q, v = _run_step(st, mode)
-    except (ZeroDivisionError, OverflowError):
-        return dict(skip=True)   # a failed value computation (C03/C04/C10's business): no strings to compare
-    except Exception as e:
-        return dict(err=err_kind(e), detail=repr(e)[:200])
     out = dict(entries=entries_of(q), unit=q.GetUnit(), category=q.GetCategory(), qtype=q.GetQuantityType(),
                derived=bool(q.IsDerived()), joined=[[u, e] for u, e in q.GetComposingUnitsJoiningExponents()],
                qrepr=repr(q), qstr=str(q), unit_caption=q.GetUnitCaption())
@@ -635,14 +893,33 @@ def _describe_step(st, mode):
     return out
 
 
+def _reread(made):
+    outs = []
+    for x in made:
+        if isinstance(x, dict):
+            outs.append(x)     # the step failed: nothing was made
+            continue
+        try:
+            outs.append(_describe(*x))
+        except Exception as e:
+            outs.append(dict(err=err_kind(e), detail="a getter raised: " + repr(e)[:200]))
+    return outs
+
+
 def _run_history(t, ctx):
     """the steps of a history on the real code, in order, in the shared database whose cache is emptied first"""
     outs = []
+    held, made = {}, []
     with Pushed(ctx.db):
         ctx.db.quantities_cache.clear()
         for st in t["steps"]:
             try:
-                outs.append(_describe_step(st, t["mode"]))
+                if st["k"] in ("edit", "reread"):
+                    if st["k"] == "edit":
+                        _apply_edit(held, st)
+                    outs.append(dict(reread=_reread(made)))
+                else:
+                    outs.append(_describe_step(st, t["mode"], held, made))
             except Exception as e:
                 outs.append(dict(err=err_kind(e), detail="a getter raised: " + repr(e)[:200]))
     return outs
@@ -754,6 +1031,47 @@ def _expected(r, qt_of):
     return res
 
 
+def _snapshot(q, v):
+    """every string the property talks about, of a quantity, of value objects on it and of its square (real code only)"""
+    from barril.units import Array, Scalar
+
+    def attempt(f):
+        try:
+            return f()
+        except (ZeroDivisionError, OverflowError):
+            return "numeric failure"
+        except Exception as e:
+            return "raises " + err_kind(e)
+
+    out = dict(unit=q.GetUnit(), category=q.GetCategory(), quantity_type=q.GetQuantityType(),
+               unit_name=attempt(q.GetUnitName), entries=entries_of(q),
+               composing=attempt(lambda: [_plain_list(q.GetComposingUnits()), _plain_list(q.GetComposingCategories())]),
+               joined=attempt(lambda: [list(x) for x in q.GetComposingUnitsJoiningExponents()]),
+               quantity_repr=repr(q), unit_caption=q.GetUnitCaption())
+    s = Scalar.CreateWithQuantity(q, 1.5)
+    out["scalar"] = [repr(s), str(s), s.GetFormatted(), attempt(s.GetUnitName)]
+    a = Array.CreateWithQuantity(q, [1.0, 2.5])
+    out["array"] = [repr(a), str(a)]
+    if v is not None:
+        out["value_object"] = [repr(v), str(v), v.GetUnit(), v.GetCategory(), v.GetQuantityType(), attempt(v.GetUnitName)]
+
+    def square():
+        p = s * s
+        return [repr(p), str(p), p.GetQuantityType(), attempt(p.GetUnitName)]
+
+    def qsquare():
+        p = q ** 2
+        return [p.GetUnit(), p.GetCategory(), p.GetQuantityType(), attempt(p.GetUnitName)]
+
+    out["scalar_times_itself"] = attempt(square)
+    out["quantity_squared"] = attempt(qsquare)
+    return out
+
+
+def _plain_list(x):
+    return x if isinstance(x, str) else [list(y) if isinstance(y, tuple) else y for y in x]
+
+
 def _oracle_history(c, ctx):
     t = c["_t"]
     db = ctx.db
@@ -762,17 +1080,43 @@ def _oracle_history(c, ctx):
     with Pushed(db):
         db.quantities_cache.clear()
         done = []
+        held, snaps = {}, []     # the caller's objects; (step, quantity, value object, its strings when it was made)
         for i, st in enumerate(t["steps"]):
             where = dict(input=show(c), step=i, after=done[:])
             done.append(st)
+            if st["k"] in ("edit", "reread"):
+                if st["k"] == "edit":
+                    _apply_edit(held, st)
+                for j, q0, v0, first in snaps:
+                    now = _snapshot(q0, v0)
+                    diff = sorted(k_ for k_ in first if now.get(k_) != first[k_])
+                    if diff:
+                        return dict(where, clause="every string of a quantity (unit, category, quantity type, unit name, "
+                                                  "composing factors, repr/str of value objects on it, the strings of its "
+                                                  "square) is the same whenever it is asked - here after the caller %s"
+                                                  % ("edited the mapping / lists it had passed (%s)" % (st["ed"],)
+                                                     if st["k"] == "edit" else "made further requests"),
+                                    quantity_made_at_step=j, changed=diff,
+                                    when_made=dict((k_, first[k_]) for k_ in diff),
+                                    now=dict((k_, now.get(k_)) for k_ in diff))
+                continue
             try:
-                q, v = _run_step(st, t["mode"])
+                q, v = _run_step(st, t["mode"], held)
             except (ZeroDivisionError, OverflowError):
                 continue
             except Exception as e:
                 return dict(where, clause="building the quantity raised", error=repr(e))
+            try:
+                snaps.append((i, q, v, _snapshot(q, v)))
+            except Exception as e:
+                return dict(where, clause="a string getter raised", error=repr(e))
             if st["k"] == "expr":
                 want = _expected(st["recipe"], db.GetCategoryQuantityType)
+            elif st["k"] == "again":
+                # the request as the caller holds it NOW
+                want = _held_entries(held, st["of"])
+            elif st["k"] == "arith":
+                want = None     # (its strings take part in the "same whenever asked" clause from now on)
             elif st["k"] == "list":
                 want = [(c_, u_, e_) for c_, (u_, e_) in zip(st["lcats"], st["pairs"])]
             else:
@@ -922,6 +1266,10 @@ def _gen(ctx, salt, scale):
     n_hist = (260 if not thorough else 4000) * scale
     for i in range(n_hist):
         yield _history_case(ctx, _history(ctx, rng))
+    # the caller keeps, edits and re-uses what it passed; all strings of every earlier quantity are asked again
+    n_call = (220 if not thorough else 3000) * scale
+    for i in range(n_call):
+        yield _history_case(ctx, _caller_history(ctx, rng))
     # powers: Quantity ** n (self * result), Scalar ** n (result * self), the n-fold product on value-less Arrays
     n_pow = (160 if not thorough else 2500) * scale
     for i in range(n_pow):
@@ -1059,6 +1407,20 @@ def agree(c, io, mo, ctx):
         if len(r) != len(m):
             return "the model answered %d steps, the history has %d" % (len(m), len(r))
         for i, (rs, ms) in enumerate(zip(r, m)):
+            if "reread" in ms or "reread" in rs:
+                # all strings of every quantity made so far, asked again: the model's values of the ORIGINAL requests
+                # (theorem strings_stable_under_caller_mutation), compared exactly like a fresh step
+                if "reread" not in ms or "reread" not in rs:
+                    return "step %d (%s): one side has no re-read: impl=%s model=%s" % (i, t["steps"][i]["k"], rs, ms)
+                if len(rs["reread"]) != len(ms["reread"]):
+                    return "step %d: the model re-reads %d quantities, the history made %d" % (i, len(ms["reread"]), len(rs["reread"]))
+                for j, (rq, mq) in enumerate(zip(rs["reread"], ms["reread"])):
+                    why = _agree_step(rq, mq, ctx)
+                    if why:
+                        return ("step %d (%s %s): the quantity made as number %d, asked again: %s"
+                                % (i, t["steps"][i]["k"], t["steps"][i].get("ed", ""), j, why))
+                ctx.notes["quantities_reread_after_caller_steps"] = ctx.notes.get("quantities_reread_after_caller_steps", 0) + len(rs["reread"])
+                continue
             why = _agree_step(rs, ms, ctx)
             if why:
                 return "step %d (%s, mode %s): %s" % (i, t["steps"][i]["k"], t["mode"], why)
